@@ -331,6 +331,9 @@ func c15Patterned(w *mon.W, idx int) {
 		if !c.Set(j) {
 			return false
 		}
+		if c.nops%11 == 5 && !c.probeBeyond(r) {
+			return false
+		}
 		if c.nops%8 == 0 {
 			return c.quiesce()
 		}
@@ -703,4 +706,60 @@ func c15ManyLive(w *mon.W, idx int) {
 	w.Sample(func() interface{} {
 		return mon.D{"what": "TailBitmaps with long tails filled interleaved, then new ones created", "bitmaps": len(ms), "bits_each": n}
 	})
+}
+
+// probeBeyond (round 14): a caller reads a set bit, then probes a position beyond the stored words - outside the stated
+// domain, the library panics "index out of range" and the caller recovers -, then sets a bit further out, so that the
+// tail grows over the probed word, and reads inside that word. The abnormal call must leave nothing behind (a one-word
+// read memo that was re-keyed before the failing load, and so kept the previously read word under the new key, was seeded).
+func (c *c15Mon) probeBeyond(r *gen.Rand) bool {
+	tb := c.tb
+	if len(tb.Words) == 0 || tb.Offset > 1<<61 {
+		return true
+	}
+	// (1) a successful read in a stored word with content
+	for k, x := range tb.Words {
+		if x != 0 {
+			j := tb.Offset + int64(64*k)
+			for b := int64(0); b < 64; b++ {
+				if x>>uint(b)&1 == 1 {
+					j += b
+					break
+				}
+			}
+			c.w.Op, c.w.A = "TailBitmap.Get1", j
+			if g := tb.Get1(j); g != 1 {
+				c.w.Fail("Tail/Get1", c.detail(mon.D{"j": j, "got": g, "expected": 1}))
+				return false
+			}
+			break
+		}
+	}
+	// (2) a probe beyond the stored words; whatever happens, the caller carries on
+	end := tb.Offset + int64(64*len(tb.Words))
+	probe := end + int64(r.Intn(128))
+	func() {
+		defer func() { recover() }()
+		c.w.Op, c.w.A = "TailBitmap.Get1(beyond the stored words; the caller recovers)", probe
+		tb.Get1(probe)
+		tb.Get(probe)
+	}()
+	c.note(fmt.Sprintf("Get1(%d) beyond the end, recovered", probe))
+	// (3) the tail grows over the probed word, (4) read inside the probed word first
+	far := (probe|63) + 1 + int64(r.Intn(100))
+	if !c.Set(far) {
+		return false
+	}
+	for _, j := range []int64{probe, probe &^ 63, probe | 63, probe ^ 1} {
+		if j < tb.Offset {
+			continue
+		}
+		c.w.Op, c.w.A = "TailBitmap.Get1(after a recovered out-of-range read)", j
+		if g, e := tb.Get1(j), c.m.bit(j); g != e {
+			c.w.Fail("Tail/Get1/after-recovered-out-of-range-read", c.detail(mon.D{"j": j, "got": g, "expected": e, "probed": probe}))
+			return false
+		}
+	}
+	c.w.Bucket("history/recovered-out-of-range-read-then-growth")
+	return true
 }
